@@ -72,6 +72,7 @@ type harness struct {
 	timeout        bool
 	drift          int
 	closed         bool
+	t0             time.Time
 	connPlan       map[string][]string // scripted outcomes of the next dials per side (after the warm-up)
 	inShutdown     bool                // Manager.Shutdown of a restart is in progress (it waits for the loop, hence for gated operations)
 	freeMs         int64               // milliseconds during which the harness itself held no endpoint operation at a closed gate
@@ -83,7 +84,7 @@ func newHarness(cid string, real bool, mode string, dir string, w io.Writer) *ha
 	h := &harness{cid: cid, real: real, mode: mode, dataDir: filepath.Join(dir, "data"),
 		rootDirs: map[string]string{"alpha": filepath.Join(dir, "alpha"), "beta": filepath.Join(dir, "beta")},
 		out:      bufio.NewWriterSize(w, 1<<16), seq: map[string]int{}, trees: map[string]*core.Entry{},
-		infl: map[int]chan struct{}{}, kinds: map[int]string{}, pendingTimeout: pendingTimeout}
+		infl: map[int]chan struct{}{}, kinds: map[int]string{}, pendingTimeout: pendingTimeout, t0: time.Now()}
 	h.cond = sync.NewCond(&h.mu)
 	go func() {
 		// the watchdog clock: it only runs while the harness is not itself keeping the loop at a closed gate
@@ -117,6 +118,7 @@ func (h *harness) emitLocked(rec map[string]any) {
 		return // the case is over: what the final clean-up does is not part of it
 	}
 	rec["cid"] = h.cid
+	rec["t"] = int(time.Since(h.t0).Milliseconds()) // monotonic milliseconds since the case began
 	b, err := json.Marshal(rec)
 	if err != nil {
 		panic(err)
